@@ -1,4 +1,5 @@
 import collections
+import unicodedata
 from fractions import Fraction as frac
 import math
 
@@ -393,15 +394,19 @@ if BASE_CURRENCY is not None:
     #             = base/currency
     for c in CURRENCY_DATA:
         mul = base.dollar_rate/c.dollar_rate
-        if c.name in NAME_TO_UNIT and c.symbol in SYMBOL_TO_UNIT:
+        # A unit name has to be an identifier, or it can't be typed
+        # (e.g. "tonganpa'anga", "venezuelanbolívar", "ni-vanuatuvatu").
+        cname = "".join(ch for ch in unicodedata.normalize("NFKD", c.name)
+                        if ch.isascii() and ch.isalnum())
+        if cname in NAME_TO_UNIT and c.symbol in SYMBOL_TO_UNIT:
             # I found that some currencies have duplicate names.
             # E.g. there are two Venezuelan currencies with the
             # same name, but different symbols. Also, some currency
             # symbols clash with existing units (Cuban peso = "cup").
             # So we try to handle that as elegantly as possible.
             continue
-        name = c.symbol if c.name in NAME_TO_UNIT else c.name
-        sym = c.name if c.symbol in SYMBOL_TO_UNIT else c.symbol
+        name = c.symbol if cname in NAME_TO_UNIT else cname
+        sym = cname if c.symbol in SYMBOL_TO_UNIT else c.symbol
         if sym in SPECIAL_NAMES:
             name = SPECIAL_NAMES[sym]
         register_unit(sym, name, "cash", CASH, multiple=mul)
